@@ -32,24 +32,24 @@ pub fn run_seed(prop: &str, base_seed: u64, index: u64) -> u64 {
 /// number of evaluations per tier (wall-clock caps are applied by the coordinator)
 pub fn budget(prop: &str, tier: Tier) -> u64 {
     let q = match prop {
-        "C01" => 60_000,
-        "C02" => 20_000,
-        "C03" => 20_000,
-        "C04" => 30_000,
-        "C05" => 15_000,
-        "C06" => 6_000,
-        "C07" => 6_000,
-        "C08" => 8_000,
-        "C09" => 600,
-        "C10" => 30_000,
-        "C11" => 15_000,
-        "C12" => 6_000,
+        "C01" => 80_000,
+        "C02" => 40_000,
+        "C03" => 100_000,
+        "C04" => 150_000,
+        "C05" => 12_000,
+        "C06" => 40_000,
+        "C07" => 5_000,
+        "C08" => 15_000,
+        "C09" => 900,
+        "C10" => 120_000,
+        "C11" => 60_000,
+        "C12" => 15_000,
         "C13" => c13_cases().len() as u64,
-        "C14" => 30_000,
-        "C15" => 12_000,
-        "C16" => 1_500,
-        "C17" => 10_000,
-        "C18" => 10_000,
+        "C14" => 120_000,
+        "C15" => 100_000,
+        "C16" => 5_000,
+        "C17" => 100_000,
+        "C18" => 25_000,
         _ => 1000,
     };
     match (tier, prop) {
@@ -414,10 +414,15 @@ pub fn c08(seed: u64, tier: Tier) -> Vec<Episode> {
     // phase 2: push .val and/or .key past an offset-width boundary, leaving free slots below it
     let which = g.rng.below(4);
     let filler = Key::B(b"\xffFILLER".to_vec());
-    let big = match g.rng.below(if thorough { 4 } else { 3 }) {
+    // the slot size of a key record is estimated from the width of the raw offsets (steps at
+    // 16 KiB and 2 MiB), the stored fields hold offset/8 (steps at 1 KiB, 128 KiB, 16 MiB)
+    let big = match g.rng.below(if thorough { 7 } else { 6 }) {
         0 => 1100usize,
-        1 => 131072 + 64,
-        2 => 131072 + 4096,
+        1 => 16384 - 200 + g.rng.below(400) as usize,
+        2 => 16384 + 64,
+        3 => 131072 + 64,
+        4 => 131072 + 4096,
+        5 => 2 * 1024 * 1024 + 100,
         _ => 16 * 1024 * 1024 + 8,
     };
     if which != 3 {
